@@ -139,6 +139,19 @@ func (idx *hybridSearchIndex) AddWithID(id uint32, vector []float32, text string
 func (idx *hybridSearchIndex) addInternal(id uint32, vector []float32, text string, metadata map[string]interface{}) error {
 	info := &documentInfo{}
 
+	// Validate against every sub-index up-front: an add that would fail in a
+	// later sub-index must not leave the document behind in an earlier one.
+	if idx.vectorIndex != nil && vector != nil && len(vector) > 0 {
+		if err := validateVectorForIndex(idx.vectorIndex, vector); err != nil {
+			return fmt.Errorf("failed to add to vector index: %w", err)
+		}
+	}
+	if idx.metadataIndex != nil && metadata != nil && len(metadata) > 0 {
+		if err := validateMetadata(metadata); err != nil {
+			return fmt.Errorf("failed to add to metadata index: %w", err)
+		}
+	}
+
 	// Add to vector index
 	if idx.vectorIndex != nil && vector != nil && len(vector) > 0 {
 		vectorNode := NewVectorNodeWithID(id, vector)
@@ -167,6 +180,21 @@ func (idx *hybridSearchIndex) addInternal(id uint32, vector []float32, text stri
 
 	idx.docInfo[id] = info
 
+	return nil
+}
+
+// validateVectorForIndex reports the error vectorIndex.Add would return for
+// this vector, without modifying the index.
+func validateVectorForIndex(vectorIndex VectorIndex, vector []float32) error {
+	if !vectorIndex.Trained() {
+		return fmt.Errorf("index must be trained before adding vectors")
+	}
+	if len(vector) != vectorIndex.Dimensions() {
+		return fmt.Errorf("vector dimension mismatch: expected %d, got %d", vectorIndex.Dimensions(), len(vector))
+	}
+	if vectorIndex.DistanceKind() == Cosine && Norm(vector) == 0 {
+		return ErrZeroVector
+	}
 	return nil
 }
 
